@@ -511,10 +511,12 @@ fn do_remapping_loop_one_device(driver: &mut impl Driver, layout: Layout, verbos
             WorkingRepeat::Repeating { keys, next_wakeup, interval_ms } => {
               if !in_tablet_mode {
                 let mut repeat_send = Vec::new();
-                for key in &keys {
+                // Keys that are already down stay down: pressing and releasing them here would leave them up
+                let chord_keys: Vec<KeyCode> = keys.iter().filter(|key| !mapper.is_output_held(key)).cloned().collect();
+                for key in &chord_keys {
                   repeat_send.push(Pressed(*key));
                 }
-                for key in (&keys).iter().rev() {
+                for key in chord_keys.iter().rev() {
                   repeat_send.push(Released(*key));
                 }
                 driver.send(&repeat_send)?;
